@@ -14,7 +14,7 @@ import (
 // the race detector.
 func VerifC19SharedWrites() {
 	w := vrtRoot() + "/w"
-	family := vrtChoice("family", 6)
+	family := vrtChoice("family", 8)
 	doc := map[string]any{"services": map[string]any{"s": map[string]any{"image": "i"}}}
 	switch family {
 	case 1:
@@ -29,6 +29,18 @@ func VerifC19SharedWrites() {
 		doc["services"].(map[string]any)["s"].(map[string]any)["env_file"] = []any{"a.env"}
 	case 5:
 		doc["name"] = "fromfile"
+	case 6:
+		// interpolation with every operator
+		doc["services"].(map[string]any)["s"].(map[string]any)["environment"] = []any{"A=${X:-d}", "B=${X-d}", "C=${X:+r}", "D=${X+r}", "E=${X:?m}", "F=${X?m}", "G=${Y:-${X}}"}
+	case 7:
+		// a whole-model pass: profiles, depends_on, volumes, secrets, ports, build
+		vrtFile(w+"/sec.txt", "s")
+		doc["services"].(map[string]any)["s"] = map[string]any{"image": "i", "build": map[string]any{"context": ".", "args": []any{"K=${X}"}},
+			"ports": []any{"80:80", "9000-9001:9000-9001/udp"}, "volumes": []any{"./d:/d", "v:/v"}, "secrets": []any{"sec"},
+			"profiles": []any{"p"}, "labels": []any{"l=1"}, "ulimits": map[string]any{"nofile": 10}, "healthcheck": map[string]any{"test": "true", "interval": "1s"}}
+		doc["services"].(map[string]any)["t"] = map[string]any{"image": "i", "depends_on": []any{"s"}, "deploy": map[string]any{"resources": map[string]any{"limits": map[string]any{"memory": "1g", "cpus": "0.5"}}}}
+		doc["volumes"] = map[string]any{"v": nil}
+		doc["secrets"] = map[string]any{"sec": map[string]any{"file": "./sec.txt"}}
 	}
 	imperative := vrtChoice("nameSetByCaller", 2) == 1
 	env := types.Mapping{"X": "1"}
